@@ -1,13 +1,11 @@
-/- Chunk 7 of the exhaustive C04 check: guard assignments 224 ≤ m < 256, all four cursor-flag
-   combinations, evaluated by the kernel (`decide +kernel`) on the lists regenerated from vaxis.go. -/
-import VaxisModel.Lemmas.C04Check
+/- Chunk 7 of the exhaustive C04 check: guard assignments 224 ≤ m < 256, all four visibility-flag
+   combinations of the two cursor records, evaluated by the kernel (`decide +kernel`) on the *symbolic*
+   lifecycle (run-time values are holes) interpreted from the lists regenerated from vaxis.go. -/
+import VaxisModel.Lemmas.C04SymCheck
 
-namespace VaxisModel.Lemmas.C04Check
-
-set_option maxRecDepth 100000 in
-theorem balanced_chunk07 : chunkB balancedB 224 256 = true := by decide +kernel
+namespace VaxisModel.Lemmas.C04SymCheck
 
 set_option maxRecDepth 100000 in
-theorem resume_chunk07 : chunkB resumeB 224 256 = true := by decide +kernel
+theorem sym_chunk07 : chunkB 224 256 = true := by decide +kernel
 
-end VaxisModel.Lemmas.C04Check
+end VaxisModel.Lemmas.C04SymCheck
